@@ -36,6 +36,13 @@ FORWARD = {
 }
 
 
+def _anc_nodes(n):
+    p = getattr(n, "_parent", None)
+    while p is not None:
+        yield p
+        p = getattr(p, "_parent", None)
+
+
 def run(repo, rep, tier):
     # ---- R1 provenance of persisted sizes
     for qual, reader, sizes in (("recalculate_row_headers", "row_height", "_row_heights"), ("recalculate_column_headers", "col_width", "_col_widths")):
@@ -152,10 +159,34 @@ def run(repo, rep, tier):
            "" if not extra else f"{extra[0][0]} also sets caption_hidden: creating or editing the caption text changes the visibility that was set through the API",
            key="C16.R2@caption_hidden:writers")
     ct = repo.func("model.py", "_NumbersModel.caption_text")
-    s = U(ct).replace(" ", "").replace("\n", "")
-    ok = "ifcaptionisnotNone:clear_field_container(self.objects[caption_storage_id].text)self.objects[caption_storage_id].text.append(caption)returnNone" in s \
-        and "returnself.objects[caption_storage_id].text[0]" in s and "caption_storage_id=caption_archive.super.owned_storage.identifier" in s
-    rep.ob("C16.R2", ct, "caption_text: written to and read from text[0] of the caption's own storage", ok, "", key="C16.R2@caption_text")
+    from ..symexec import _unwrap_alias, body_paths, none_test
+    cparam = ct.args.args[2].arg
+
+    def storage_of(e):
+        """<X>.text -> the expression that names the storage object, aliases of plain locals followed."""
+        if isinstance(e, ast.Attribute) and e.attr == "text":
+            v = _unwrap_alias(ct, e.value) if isinstance(e.value, ast.Name) else e.value
+            if isinstance(v, ast.Subscript) and isinstance(v.slice, ast.Name):
+                v = ast.Subscript(value=v.value, slice=_unwrap_alias(ct, v.slice), ctx=ast.Load())
+            return U(v).replace(" ", "")
+        return None
+
+    def is_write(c):
+        return isinstance(c, ast.Call) and (call_name(c) == "clear_field_container" or (last_attr(c.func) == "append" and c.args and U(c.args[0]) == cparam))
+    clears = [storage_of(c.args[0]) for c in body_walk(ct) if isinstance(c, ast.Call) and call_name(c) == "clear_field_container" and c.args]
+    appends = [storage_of(c.func.value) for c in body_walk(ct) if is_write(c) and last_attr(c.func) == "append"]
+    reads = [storage_of(r.value.value) for r in body_walk(ct) if isinstance(r, ast.Return) and isinstance(r.value, ast.Subscript) and try_const(r.value.slice) == 0]
+    stores = set(clears) | set(appends) | set(reads)
+    own = len(stores) == 1 and None not in stores and next(iter(stores)).startswith("self.objects[") and next(iter(stores)).endswith(".super.owned_storage.identifier]")
+    # writes happen only on paths where a caption was given
+    guarded = True
+    for conds, steps, _end in body_paths([x for x in ct.body]):
+        if any(is_write(c) for st in steps for c in ast.walk(st)):
+            given = any((none_test(t, cparam) is True and o is False) or (none_test(t, cparam) is False and o is True) for t, o in conds)
+            guarded = guarded and given
+    ok = own and len(clears) == 1 and len(appends) == 1 and len(reads) == 1 and guarded
+    detail_ct = "" if ok else f"cleared: {clears}, appended to: {appends}, read from: {reads}, writes only when a caption is given: {guarded}"
+    rep.ob("C16.R2", ct, "caption_text: written to and read from text[0] of the caption's own storage", ok, detail_ct, key="C16.R2@caption_text")
     tc = repo.func("model.py", "_NumbersModel.table_coordinates")
     s = U(tc).replace(" ", "").replace("\n", "")
     ok = "return(table_info.super.geometry.position.x,table_info.super.geometry.position.y)" in s
